@@ -131,6 +131,7 @@ class ScriptedAdbDevice(object):
     self.banner = banner
     self.cond = cond_factory()
     self.out = collections.deque()   # chunks ready to be read by the host
+    self.out_meta = collections.deque()
     self.log = []                    # ('host', parsed header, payload) / ('dev', cmd, arg0, arg1, payload)
     self.streams = []                # per OPEN: dict(local, remote, idx, sent, awaiting_ack, opened, closed)
     self.by_local = {}
@@ -142,10 +143,11 @@ class ScriptedAdbDevice(object):
     self.violations = []
 
   # -- device side helpers ------------------------------------------------------
-  def _emit(self, cmd, arg0, arg1, payload=''):
+  def _emit(self, cmd, arg0, arg1, payload='', meta=None):
     self.log.append(('dev', cmd, arg0, arg1, payload))
     for c in frame_chunks(cmd, arg0, arg1, payload):
       self.out.append(c)
+      self.out_meta.append(meta)
 
   def _pump(self):
     """Release device WRTEs/CLSEs according to merge order and flow control."""
@@ -224,8 +226,15 @@ class ScriptedAdbDevice(object):
         s['awaiting_ack'] = False
       self._pump()
     elif cmd == 'WRTE':
+      if s is not None:
+        if len(payload) > self.maxdata:
+          self.violations.append('host WRTE of %d bytes exceeds maxdata %d' % (len(payload), self.maxdata))
+        if s.get('host_wrte_unacked'):
+          self.violations.append('host sent a second WRTE on stream %s before reading the OKAY of the previous one' % h['arg0'])
+        s.setdefault('host_data', []).append(payload)
       if s is not None and (self.script[s['idx']] if s['idx'] < len(self.script) else {}).get('ack_host_writes', True):
-        self._emit('OKAY', s['remote'], s['local'])
+        s['host_wrte_unacked'] = True
+        self._emit('OKAY', s['remote'], s['local'], meta=('ack', s['local']))
     elif cmd == 'CLSE':
       if s is not None:
         s['closed'] = True
@@ -271,12 +280,17 @@ class ScriptedAdbDevice(object):
             raise timeout_error()
           self._emit(cmd, a0, a1, payload)
       if not self.out:
-        t = self.max_block_s if timeout_ms is None else min(self.max_block_s, timeout_ms / 1000.0)
-        self.cond.wait(t)
+        t = self.max_block_s if timeout_ms is None else min(self.max_block_s or 1e18, timeout_ms / 1000.0)
+        self.cond.wait(t)   # t None = forever (virtual time mode)
         if not self.out:
           if timeout_ms is None:
             self.blocked_forever += 1
           raise timeout_error()
+      meta = self.out_meta.popleft() if self.out_meta else None
+      if meta and meta[0] == 'ack':
+        st = self.by_local.get(meta[1])
+        if st is not None:
+          st['host_wrte_unacked'] = False
       return self.out.popleft()
 
   def close(self):
